@@ -9,6 +9,11 @@ Protocol (one line per request, ASCII):
   pfmt  <text>                               str(ColorFmt.get_plaintext_fmt()(text))
   make  <n> (<fg> <bg> <eff> <nc> <text>)*n @ <value>
                                              t = CHText.make([chunks]) (the other constructor; P = make_plain chunk)
+  route <fg> <bg> <eff> <nc> <route> <text> @ <left> <right>
+                                             x = ColorFmt(...)(text) turned into a str: str (str(x)) | pct ('%s' % x) | fstr
+                                             (f"{x}") | fmt:<spec> (format(x, spec)) | sfmt:<spec> ("{:spec}".format(x)) |
+                                             tfmt:<spec> (format(CHText(x), spec)) | addr:<s> (str(x + s)) | addl:<s> (str(s + x));
+                                             data: what the real route wrote left / right of the text (seen on the terminal)
   first <entry> <text>                       the first call on a freshly imported copy of ak/color.py:
                                              chunk-strip CHText.Chunk.strip_colors(text) | obj-strip fmt("q").strip_colors(text)
                                              | cht-strip CHText.strip_colors(text) | plain-fmt get_plaintext_fmt()(text)
@@ -52,15 +57,12 @@ from harness.core import enc_str, dec_str
 PROPERTY = "C09"
 READY = True
 THEOREMS = [
-    "C09.sgr_std", "C09.strip_final", "C09.strip_class",
-    "C09.mkSeq_total", "C09.valid_ok", "C09.invalid_raises", "C09.colour_domain", "C09.color_code",
-    "C09.flags_by_truthiness", "C09.flag_kinds_irrelevant",
-    "C09.nocolor_no_esc", "C09.plain_no_esc",
-    "C09.chunk_shows", "C09.chunk_resets", "C09.text_shows", "C09.text_invalid",
-    "C09.strip_plain", "C09.strip_chunk", "C09.strip_render", "C09.strip_text",
-    "C09.chunks_show",
-    "C09.value_shows", "C09.given_shows", "C09.given_of_value", "C09.palette_invalid", "C09.abstraction_sound", "C09.hist_shows",
-    "C09.calls_stateless", "C09.invalid_raises_always",
+    "C09.sgr_std", "C09.strip_final", "C09.strip_class", "C09.mkSeq_total", "C09.valid_ok", "C09.invalid_raises",
+    "C09.colour_domain", "C09.color_code", "C09.flags_by_truthiness", "C09.flag_kinds_irrelevant",
+    "C09.nocolor_no_esc", "C09.plain_no_esc", "C09.chunk_shows", "C09.chunk_resets", "C09.text_shows",
+    "C09.text_invalid", "C09.strip_plain", "C09.strip_chunk", "C09.strip_render", "C09.strip_text", "C09.chunks_show",
+    "C09.value_shows", "C09.given_shows", "C09.given_of_value", "C09.palette_invalid", "C09.abstraction_sound",
+    "C09.hist_shows", "C09.calls_stateless", "C09.invalid_raises_always", "C09.make_shows", "C09.route_shows",
     "C09.bytes_same",
 ]
 RULE = ("fmt: every fg x bg pair of the 8 names, all 256 ints, all 216 cube triples, g0..g30 (each as fg and as bg), "
@@ -701,6 +703,64 @@ def twin(line):
     return " ".join([op + "m"] + split_data(a)[0])
 
 
+def _run_route(a):
+    """x = ColorFmt(...)(text) -> str by the route a[4]"""
+    m = _mod()
+    fg, kw = _kwargs(a)
+    x = m.ColorFmt(fg, **kw)(dec_str(a[5]))
+    rt, _, arg = a[4].partition(":")
+    arg = dec_str(arg) if arg else ""
+    if rt == "str":
+        return str(x)
+    if rt == "pct":
+        return "%s" % x
+    if rt == "fstr":
+        return f"{x}"
+    if rt == "fmt":
+        return format(x, arg)
+    if rt == "sfmt":
+        return ("{:" + arg + "}").format(x)
+    if rt == "tfmt":
+        return format(m.CHText(x), arg)
+    if rt == "addr":
+        return str(x + arg)
+    if rt == "addl":
+        return str(arg + x)
+    raise RuntimeError("bad route " + a[4])
+
+
+def _window(cells, text, st):
+    """where the text stands among the shown cells: the offset whose cells carry the requested attributes while
+    all the others are default, else the first occurrence, else None"""
+    vis = "".join(c for c, _ in cells)
+    n = len(text)
+    cands = [k for k in range(len(vis) - n + 1) if vis[k:k + n] == text]
+    for k in cands:
+        if all(s2 == st for _, s2 in cells[k:k + n]) and all(s2 == DEFAULT for _, s2 in cells[:k] + cells[k + n:]):
+            return k
+    return cands[0] if cands else None
+
+
+def attach_route(line):
+    """route request -> protocol line with, as data, what the real route wrote left and right of the text"""
+    op, *a = line.split()
+    a = split_data(a)[0]
+    try:
+        res = _with_budget(lambda: _run_route(a))
+        shown = terminal(res, lenient=True)
+        text = dec_str(a[5])
+        verdict, st = wanted(a[:4])
+        k = _window(shown[0], text, DEFAULT if flag_on(a[3]) or st is None else st) if shown else None
+        if k is None:
+            data = ["-", "-"]
+        else:
+            vis = "".join(c for c, _ in shown[0])
+            data = [enc_str(vis[:k]), enc_str(vis[k + len(text):])]
+    except Exception as e:
+        data = ["E:" + type(e).__name__, "-"]
+    return " ".join([op] + a + ["@"] + data)
+
+
 _FRESH = [0]
 
 
@@ -753,6 +813,12 @@ def impl(case):
                 out.append("ok " + enc_bytes(m.ColorBytes(fg, **kw)(dec_bytes(a[4]))))
             elif op == "first":
                 out.append("ok " + enc_str(_first_use(a[0], dec_str(a[1]))))
+            elif op == "route":
+                out.append("ok " + enc_str(_with_budget(lambda: _run_route(split_data(a)[0]))))
+            elif op == "makem":
+                parts, _ = _parts(a)
+                out.append("ok " + enc_str(str(m.CHText.make(
+                    [p if isinstance(p, m.CHText.Chunk) else m.CHText.Chunk.make_plain(p) for p in parts]))))
             elif op in ("cht", "make", "hist", "ops", "chtm", "histm", "opsm"):
                 out.append("ok " + "|".join(observe(op, split_data(a)[0])))
             elif op == "pfmt":
@@ -772,7 +838,7 @@ def impl(case):
 
 def observable(i, line):
     """diagnostics only: the terminal cross-check and the lines where the model evaluates CHText operations"""
-    return not line.startswith(("term ", "chtm ", "histm ", "opsm "))
+    return not line.startswith(("term ", "chtm ", "histm ", "opsm ", "makem "))
 
 
 # ------------------------------------------------------------------ oracle: a terminal + the statement
@@ -1092,6 +1158,39 @@ def oracle(case, replies):
                 return "first-use: %s answers %r as the first call, %r later" % (a[0], got, warm)
             if ESC not in text and got != text:
                 return "strip: text without escape characters changed: %r -> %r" % (text, got)
+        elif op == "route":
+            head = split_data(a)[0]
+            verdict, st = wanted(head[:4])
+            if flag_on(head[3]):
+                verdict, st = ("either" if verdict == "bad" else verdict), DEFAULT
+            if verdict == "bad":
+                if rep != "err ValueError":
+                    return "invalid-accepted: %s gives %s" % (line[:80], rep[:60])
+                continue
+            if verdict == "either" and rep == "err ValueError":
+                continue
+            if rep == "err ValueError" and head[4].split(":")[0] in ("str", "pct", "fstr", "addr", "addl"):
+                return "valid-rejected: %s gives %s" % (line[:120], rep)
+            if not rep.startswith("ok "):
+                continue             # a format spec the code rejects etc.: not this property's question
+            res, text = dec_str(rep[3:]), dec_str(head[5])
+            shown = terminal(res, lenient=True)
+            if shown is None:
+                return "route malformed: %s: %r is not text + complete SGR sequences" % (line[:120], res)
+            cells, fin = shown
+            if fin != DEFAULT:
+                return "route bleed: %s: terminal left in state %s" % (line[:120], _show_state(fin))
+            k = _window(cells, text, st)
+            if k is not None:
+                for j, (ch, got) in enumerate(cells):
+                    want = st if k <= j < k + len(text) else DEFAULT
+                    if got != want:
+                        return "route %s: %s: character %d (%r) of %r shown with %s, requested %s" % (
+                            "attributes" if want != DEFAULT else "bleed", line[:120], j, ch,
+                            "".join(c for c, _ in cells), _show_state(got), _show_state(want))
+            vis = "".join(c for c, _ in cells)
+            if m.CHText.strip_colors(res) != vis:
+                return "route strip: %s: strip_colors(%r) = %r" % (line[:120], res, m.CHText.strip_colors(res))
         elif op in ("cht", "make", "hist", "ops"):
             head = split_data(a)[0]
             if op in ("cht", "make"):
@@ -1125,6 +1224,17 @@ def oracle(case, replies):
                 msg = _judge_own(look, states, "observation %d of %s" % (j, line[:200]))
                 if msg:
                     return {"cht": "", "make": "make ", "hist": "history ", "ops": "operations "}[op] + msg
+            if op in ("cht", "make") and looks:
+                # a text built directly from what formatters returned: the attributes requested for a character are
+                # those of the formatter its part came from. (Only the colours are judged here: when the shown
+                # characters are not the parts' characters in order, that is C08's finding.)
+                n = int(head[0])
+                expect = [(dec_str(head[5 + 5 * i]), states[i + 1]) for i in range(n)]
+                shown = terminal(dec_str(looks[0].split()[0]), lenient=True)
+                if shown and "".join(c for c, _ in shown[0]) == "".join(t for t, _ in expect):
+                    msg = _check_shown(dec_str(looks[0].split()[0]), expect, line[:200])
+                    if msg:
+                        return ("make " if op == "make" else "") + "constructor-" + msg
         elif op == "pfmt":
             if rep != "ok " + a[0]:
                 return "nocolor-esc: the plain-text formatter turns %r into %s" % (dec_str(a[0]), rep)
@@ -1255,7 +1365,9 @@ def _case(line, kind):
         # evaluates the operations itself, is compared as a diagnostic only
         return {"lines": [attach(line), twin(line)], "meta": {"kind": kind}}
     if line.startswith("make "):
-        return {"lines": [attach(line)], "meta": {"kind": kind}}
+        return {"lines": [attach(line), twin(line)], "meta": {"kind": kind}}
+    if line.startswith("route "):
+        return {"lines": [attach_route(line)], "meta": {"kind": kind}}
     return {"lines": [line], "meta": {"kind": kind}}
 
 
@@ -1594,6 +1706,39 @@ def gen_cases(rng, tier):
         if rng.random() < 0.5:
             # the other constructor, CHText.make([chunks]): merges neighbours of the same type, keeps empty chunks
             yield _case("make %d %s" % (n, " ".join(toks)) if n else "make 0", "make-malformed" if bad else "make-%d" % min(n, 4))
+    # --- CHText.make with empty chunks at every position among same-type and different-type neighbours
+    import itertools
+    letters = [("A", ""), ("A", "a"), ("B", ""), ("B", "bc"), ("P", ""), ("P", "p")]
+    sp = {"A": spec_tokens("RED"), "B": spec_tokens("GREEN", "BLUE", "TNNNN")}
+    for n in range(1, 5 if not thorough else 6):
+        for combo in itertools.product(letters, repeat=n):
+            parts = " ".join(("P N NNNNN F %s" % enc_str(t)) if f == "P" else "%s %s" % (sp[f], enc_str(t)) for f, t in combo)
+            yield _case("make %d %s" % (n, parts), "make-small")
+            if n <= 3:
+                yield _case("cht %d %s" % (n, parts), "cht-small")
+    # --- every route from what a formatter returned to a str
+    fills = ["", " ", "*", "m", "0", "[", ";", "_"]
+    for _ in range(900 if not thorough else 40000):
+        fg, bg, eff = rand_valid_color(rng), rand_valid_color(rng), rand_eff(rng)
+        if rng.random() < 0.08:
+            fg = rand_malformed(rng)
+        text = rng.choice(["text", "x", "", "ab", "m", "7"]) if rng.random() < 0.6 else rand_text(rng, 5).replace("{", "(").replace("}", ")")
+        q = rng.random()
+        if q < 0.55:
+            fill = rng.choice(fills)
+            align = rng.choice(["", "<", ">", "^"]) if not fill else rng.choice("<>^")
+            width = rng.choice(["", "0", "1", "3", "6", "10", "12", "25"])
+            route = "%s:%s" % (rng.choice(["fmt", "fmt", "sfmt", "tfmt"]), enc_str(fill + align + width + rng.choice(["", "", "s"])))
+        elif q < 0.7:
+            route = rng.choice(["str", "pct", "fstr"])
+        else:
+            route = "%s:%s" % (rng.choice(["addr", "addl"]), enc_str(rng.choice(["", " ", "   ", "pad", "[m", "0;1m"])))
+        yield _case("route %s %s %s" % (spec_tokens(fg, bg, eff, rand_nc(rng, 0.05)), route, enc_str(text)), "route-" + route.split(":")[0])
+    for spec in ["10", "<10", ">10", "^10", "*^9", "_>7s", "3", "0", "s", "", "m<8", "1"]:
+        for text in ["text", ""]:
+            for fgbg in (("GREEN", "BLUE"), (None, None), (123, None)):
+                for rt in ("fmt", "sfmt", "tfmt"):
+                    yield _case("route %s %s:%s %s" % (spec_tokens(fgbg[0], fgbg[1], "NNTNT"), rt, enc_str(spec), enc_str(text)), "route-" + rt)
     # --- first use: a public entry point called before anything else in a fresh copy of the module
     for entry in FIRST_ENTRIES:
         for text in ["", "plain [m text", _emitted("RED") + "x" + ESC + "[0m", _emitted(123, "g5", "TNNNT") + "ab" + ESC + "[0m tail",
@@ -1841,6 +1986,13 @@ def shrink(case):
     elif op == "first":
         for t in _shorter(a[1]):
             yield mk([a[0], t])
+    elif op == "route":
+        if a[1] != "N":
+            yield mk([a[0], "N"] + a[2:])
+        if a[2] != "NNNNN":
+            yield mk(a[:2] + ["NNNNN"] + a[3:])
+        for t in _shorter(a[5]):
+            yield mk(a[:5] + [t])
     elif op in ("strip", "term", "pfmt"):
         for t in _shorter(a[0]):
             yield mk([t])
@@ -1853,7 +2005,7 @@ def nontrivial(case, replies):
         return a[:3] != ["N", "N", "NNNNN"]
     if op in ("cht", "make"):
         return int(a[0]) >= 2
-    if op == "first":
+    if op in ("first", "route"):
         return True
     if op == "pfmt":
         return a[0] != "-"
@@ -1905,7 +2057,7 @@ LEVEL_TEXT = ("Proved in Lean for all colour values (incl. floats and float tupl
               "differential run (exhaustive over names x names, 256 ints, 216 triples, g0-g30, 3^5 effect settings, "
               "int/float pairs, small histories; random texts, part lists, call sequences, histories, operation trees, "
               "strings with ESC fragments).")
-LEVEL_NOTE = ("Kernel-checked: all 30 pinned theorems. JUDGED path of the driver (what the verdict compares): fmt/bytes/pfmt/seq/first lines run mkSeq/mkChunk/mkSeqBytes/runCalls (chunk_shows, chunk_resets, strip_chunk, bytes_same, valid_ok, invalid_raises, flags_by_truthiness, calls_stateless ...); cht/make/hist/ops lines run renderGiven/givenChunks/Given.ok on the real object's own chunk list (given_shows; given_of_value ties it to value_shows); strip lines run strip (strip_plain, strip_text). DIAGNOSTIC path only (chtm/histm/opsm twins, never in the verdict): buildChunks, renderText after histRun / CHText.eval - text_shows, strip_render, hist_shows, abstraction_sound are theorems about that model of what the operations produce (C08's subject), value_shows about every value. Rest on the tie only: that the code has no state between calls / "
+LEVEL_NOTE = ("Kernel-checked: all 32 pinned theorems. JUDGED path of the driver (what the verdict compares): fmt/bytes/pfmt/seq/first lines run mkSeq/mkChunk/mkSeqBytes/runCalls, route lines routeStr with the real pads as data (route_shows, chunk_shows, chunk_resets, strip_chunk, bytes_same, valid_ok, invalid_raises, flags_by_truthiness, calls_stateless ...); cht/make/hist/ops lines run renderGiven/givenChunks/Given.ok on the real object's own chunk list (given_shows; given_of_value ties it to value_shows); strip lines run strip (strip_plain, strip_text). DIAGNOSTIC path only (chtm/makem/histm/opsm twins, never in the verdict; makem: mergeChunks - make_shows): buildChunks, renderText after histRun / CHText.eval - text_shows, strip_render, hist_shows, abstraction_sound are theorems about that model of what the operations produce (C08's subject), value_shows about every value. Rest on the tie only: that the code has no state between calls / "
               "renderings (the model has none by construction - C09.calls_stateless, C09.hist_shows say what that means; "
               "the seq and hist streams and the oracle's per-call judgement test it); what CHText operations produce is not "
               "judged here (C08): the rendering of the real object's own chunk list is (diagnostic twins compare the "
